@@ -9,7 +9,6 @@ use yuvxyb::{
     TransferCharacteristic as Tc, Xyb, Yuv,
 };
 
-pub const CANON_NAN: u32 = 0x7fc0_0000;
 /// light mode (Miri engine): skip physical buffer snapshots
 pub static LIGHT: std::sync::atomic::AtomicBool = std::sync::atomic::AtomicBool::new(false);
 
@@ -105,13 +104,6 @@ impl Val {
     }
 }
 
-pub fn canon_bits(v: f32) -> u32 {
-    if v.is_nan() {
-        CANON_NAN
-    } else {
-        v.to_bits()
-    }
-}
 pub fn bits_of(data: &[[f32; 3]]) -> Vec<[u32; 3]> {
     data.iter().map(|p| [p[0].to_bits(), p[1].to_bits(), p[2].to_bits()]).collect()
 }
@@ -280,17 +272,6 @@ impl Obj {
             _ => None,
         }
     }
-    /// number of other holders of this object (other simulated threads mid-conversion)
-    pub fn shared(&self) -> bool {
-        match self {
-            Obj::Y8(a) => Arc::strong_count(a) > 1,
-            Obj::Y16(a) => Arc::strong_count(a) > 1,
-            Obj::Rgb(a) => Arc::strong_count(a) > 1,
-            Obj::Lin(a) => Arc::strong_count(a) > 1,
-            Obj::Xyb(a) => Arc::strong_count(a) > 1,
-            Obj::Hsl(a) => Arc::strong_count(a) > 1,
-        }
-    }
 }
 
 // ------------------------------------------------------------------ data from seeds
@@ -406,10 +387,7 @@ fn oob_position(op: &Op) -> (usize, usize, usize) {
 pub fn has_oob_sample(op: &Op) -> bool {
     op.datamode == 2 && op.which == 1 && op.cfg.bd < 16
 }
-/// (x, y, plane) of the out-of-range sample of a datamode-2 op
-pub fn oob_where(op: &Op) -> (usize, usize, usize) {
-    oob_position(op)
-}
+
 
 /// Builds the frame a `NewYuv` op describes, through the public frame types only.
 pub fn build_frame<T: Pixel>(op: &Op) -> Frame<T> {
